@@ -101,6 +101,19 @@ class Layout:
 
 MARK = 0x5a
 
+# C05 hooks in here: called with every program object after assembling
+LOAD_OBSERVER = None
+
+
+def _observe(obj):
+    if LOAD_OBSERVER is not None:
+        if obj.status == "verifier":
+            try:   # while the map fds are still open
+                obj.vlog = obj.verifier_log()
+            except Exception as e:
+                obj.vlog = f"(no log: {e})"
+        LOAD_OBSERVER(obj)
+
 
 class Program:
     def __init__(self, decls, regs, body, extra_out=0, subprograms=(),
@@ -109,7 +122,7 @@ class Program:
         self.regs = regs
         self.layout = lay = Layout(decls, regs, extra_out)
         self.code = None
-        self.verifier_log = None
+        self.vlog = None
         self.load_error = None
         self.fd = None
         prog = self
@@ -166,6 +179,14 @@ class Program:
 
     # ------------------------------------------------------------ building
     def assemble(self, tracker=None, use_kernel=True):
+        self.status = self._assemble(tracker, use_kernel)
+        _observe(self)
+        return self.status
+
+    def verifier_log(self):
+        return Loaded.verifier_log(self)
+
+    def _assemble(self, tracker=None, use_kernel=True):
         """assemble (and load, when the kernel is available).  Returns
         'ok', 'rejected' (AssembleError) or 'verifier' (kernel refused)."""
         e = self.ebpf
@@ -179,7 +200,7 @@ class Program:
 
             ebpf_bpf.prog_load = capture
             try:
-                self.verifier_log = e.load(log_level=0)
+                e.load(log_level=0)
                 self.fd = e.file_descriptor
             except AssembleError as err:
                 self.load_error = str(err)
@@ -360,6 +381,7 @@ class Loaded:
         self.fd = None
         self.error = None
         self.status = None
+        self.vlog = None
         if use_kernel and kernel.available():
             captured = {}
             real = ebpf_bpf.prog_load
@@ -389,6 +411,7 @@ class Loaded:
             except AssembleError as err:
                 self.error = str(err)
                 self.status = "rejected"
+        _observe(self)
 
     def verifier_log(self):
         import ctypes
